@@ -146,6 +146,7 @@ func (g *gen) snapshot(id uint64, keep uint64) {
 	st := raftsim.Inspect(n)
 	if n.Applied > n.Snapshot.Index && n.Applied >= st.FirstIndex && n.Kind != 'W' && n.Applied >= uint64(g.nboot) {
 		ss := pb.Snapshot{Index: n.Applied, Term: termAt(st.Entries, st.FirstIndex, st.MarkerTerm, n.Applied), Filepath: "f", FileSize: 1}
+		ss.Membership.ConfigChangeId = n.Mem.CCID
 		ss.Membership.Addresses = map[uint64]string{}
 		ss.Membership.NonVotings = map[uint64]string{}
 		ss.Membership.Witnesses = map[uint64]string{}
